@@ -78,6 +78,13 @@ Section Model.
     exact (proj1 (per_req_iff cl_relay_ex reqs b _) (spec_relay reqs s b c) i q Hn).
   Qed.
 
+  Lemma m_presented :
+    all_conns (fun k b reqs T => count is_reqmod T = nread reqs) 0 0 conns Ts.
+  Proof.
+    destruct run_is_spec as [-> _]. apply all_conns_spec. intros reqs s b c.
+    apply Nat.eqb_eq. exact (spec_presented reqs s b c).
+  Qed.
+
   Lemma m_skip :
     guard_ok conns = true ->
     all_conns (fun k b reqs T => forall i q, nth_error reqs i = Some q -> P_skip_ex q (ex (b + i) T)) 0 0 conns Ts.
@@ -235,6 +242,7 @@ Definition clause_prop (c : clause) (k b : nat) (reqs : list req) (T : list even
   | CError => forall i q, nth_error reqs i = Some q -> P_error_ex q (ex (b + i) T)
   | CSkip => forall i q, nth_error reqs i = Some q -> P_skip_ex q (ex (b + i) T)
   | CRelay => forall i q, nth_error reqs i = Some q -> P_relay_ex q (ex (b + i) T)
+  | CPresented => count is_reqmod T = nread reqs
   | CCtxFresh => True      (* decided over the whole case, not per connection *)
   end.
 
@@ -270,6 +278,8 @@ Proof.
     [|intros E; inversion E; subst; cbn; unfold cl_skip in E7;
       rewrite <- (per_req_lift cl_skip_ex P_skip_ex b reqs T cl_skip_ex_iff); congruence].
   destruct (cl_relay b reqs T) eqn:E8; cbn [negb];
-    [discriminate|intros E; inversion E; subst; cbn; unfold cl_relay in E8;
+    [|intros E; inversion E; subst; cbn; unfold cl_relay in E8;
       rewrite <- (per_req_lift cl_relay_ex P_relay_ex b reqs T cl_relay_ex_iff); congruence].
+  destruct (cl_presented reqs T) eqn:E9; cbn [negb]; [discriminate|].
+  intros E; inversion E; subst; cbn. unfold cl_presented in E9. apply Nat.eqb_neq in E9. exact E9.
 Qed.
